@@ -1,4 +1,6 @@
 import ApolloModel.Proofs.Execution
+import ApolloModel.Proofs.ExecutionSpec2
+import ApolloModel.Proofs.ExecutionFuel
 /-
 C26 — Execution follows the GraphQL execution algorithm.
 
@@ -6,11 +8,13 @@ Model: Model/Execution.lean transliterates `execute_selection_set`, `collect_fie
 `try_nullify` (resolvers/execution.rs), `complete_value`, `complete_list_value`, `complete_leaf_value`
 (resolvers/result_coercion.rs) and `coerce_argument_values` (resolvers/input_coercion.rs) over a resolver
 *world* `(object id, field name) ↦ resolved value | error | list | object | skip`.
-The theorems below are the three "in particular" clauses of the property, for ALL schemas, operations,
+The first theorems are the three "in particular" clauses of the property, for ALL schemas, operations,
 variables, worlds and fuel, stated for every call that produces a response position (so they hold at
-every position of every response).  The equality with a reference executor written from the
-specification is checked on the implementation by the harness (stream `c26.exec` + reference executor);
-`model_eq_spec_statement` records what a Lean refinement proof would state (not proved).
+every position of every response).  `model_eq_spec` (end of the file) is the refinement: the model equals
+the specification's algorithms (Spec/Execution.lean: CollectFields … CompleteValue written from §6.3–§6.4
+with raise / catch-at-the-nearest-nullable-position error handling and apollo-compiler's documented
+choices as parameters) on every input.  The model itself is tied to the Rust by the stream `c26.exec`,
+and the harness compares the implementation with an independent Rust reference executor as well.
 -/
 namespace Apollo.C26
 open Apollo Apollo.Exec
@@ -117,9 +121,7 @@ theorem data_null_iff_root_propagation (fuel : Nat) (env : Env) (sels : List Sel
       rw [he]
       exact this
 
-/-- what a refinement proof against a spec-side executor (raise a field error, catch it at the nearest
-    nullable position; CollectFields / CompleteValue by recursion on the type) would state; not proved in
-    Lean — the reference executor lives in the harness and is compared with the implementation -/
+/-- the refinement statement against a spec-side executor -/
 def model_eq_spec_statement (specExecute : Nat → Env → List Sel → Outcome) : Prop :=
   ∀ fuel env sels, execute fuel env sels = specExecute fuel env sels
 
@@ -154,5 +156,53 @@ example : errorsOf (execute 10 (envT [((0, "o"), .object "Query" 1), ((1, "q"), 
       ((2, "g"), .list [.leaf (.int 1), .leaf .null])]) [fieldSel "o" [fieldSel "q" [fieldSel "g" []]]])
     = [[.key "o", .key "q", .key "g", .idx 1]] := by
   decide
+
+/-! ### Refinement: the model is the specification's execution algorithm -/
+
+/-- For every schema, operation, coerced variables, resolver world and fuel, the model of
+    apollo-compiler's executor (`Result<Option<_>, PropagateNull>` nullified level by level, early
+    returns) and the specification's algorithms of §6.3–§6.4 (raise a field error, catch it at the
+    nearest nullable position), taken with apollo-compiler's documented choices, produce the same
+    response: same `data` with the same key order, same errors with the same paths in the same order;
+    and they run out of fuel on the same inputs. -/
+theorem model_eq_spec : model_eq_spec_statement (ExecSpec.execute ExecSpec.Choices.apollo) :=
+  fun fuel env sels => ExecSpec.execute_eq_spec fuel env sels
+
+/-- …position by position: after the catch of its own position, `complete_value` is CompleteValue. -/
+theorem complete_value_eq_spec (env : Env) (n : Nat) (path : Path) (ty : Ty) (rv : RV) (fields : List Sel) (st : St) :
+    (tryNullify ty (completeValue env n path ty rv fields st).1, (completeValue env n path ty rv fields st).2) =
+    (ExecSpec.toOut (ExecSpec.catchAt ty (ExecSpec.completeValue ExecSpec.Choices.apollo env n path ty rv fields st).1),
+      (ExecSpec.completeValue ExecSpec.Choices.apollo env n path ty rv fields st).2) :=
+  ExecSpec.completeValue_refines env n path ty rv fields st
+
+/-- CollectFields is `collect_fields` (same grouped field set, same visited fragments). -/
+theorem collect_fields_eq_spec (env : Env) (objTy : String) (n : Nat) (sels : List Sel) (visited : List String)
+    (groups : AList (List Sel)) :
+    collectFields env objTy n sels visited groups = ExecSpec.collectFields env objTy n sels visited groups :=
+  (ExecSpec.collectFields_eq env objTy n sels visited groups).symm
+
+/-- PARTIAL (operations without fragment spreads; inline fragments allowed): with more `collect_fields`
+    fuel than selection nodes and more `complete_value` fuel than (selection depth + 1) × (deepest field
+    type of the schema + 1), execution never runs out of fuel, whatever the world returns (cyclic object
+    graphs, lists nested deeper than the type, …).  Missing: fragment spreads (needs acyclicity of the
+    fragments, which validation guarantees, and a measure through fragment expansion). -/
+theorem exec_fuel_sufficient_partial (env : Env) (sels : List Sel) (fuel : Nat)
+    (hns : Sel.noSpreadL sels = true) (hc : Sel.weightL sels < env.cfuel)
+    (hfuel : (Sel.depthL sels + 1) * (maxObjDepth env.schema.objects + 1) < fuel) :
+    execute fuel env sels ≠ .outOfFuel :=
+  execute_fuel_sufficient env sels fuel hns hc hfuel
+
+/-- the full fuel statement (fragment spreads included, fragments acyclic); not proved -/
+def exec_fuel_sufficient_statement : Prop :=
+  ∀ (env : Env) (sels : List Sel), ∃ fuel cfuel, ∀ fuel' ≥ fuel, ∀ cfuel' ≥ cfuel,
+    execute fuel' { env with cfuel := cfuel' } sels ≠ .outOfFuel
+
+/-- the documented choice matters: with the item-stream error caught at the (nullable) item instead of
+    failing the list, the specification gives `{"f": [42, null]}` for the repo's unit test, the model
+    (and the code) `{"f": null}` -/
+example : dataOf (ExecSpec.execute { ExecSpec.Choices.apollo with itemStreamErrorFailsList := false } 10
+      (envT [((0, "f"), .list [.leaf (.int 42), .error])]) [fieldSel "f" []]) = some (some [("f", .arr [.int 42, .null])]) := rfl
+example : dataOf (execute 10 (envT [((0, "f"), .list [.leaf (.int 42), .error])]) [fieldSel "f" []]) =
+    some (some [("f", .null)]) := rfl
 
 end Apollo.C26
